@@ -167,7 +167,7 @@ def replay_schedule(cex, d):
     acts = [int(x) for x in fx['acts']]
     n, c1, c2 = int(fx['n']), int(fx['c1']), int(fx['c2'])
     if max(n, c1, c2) > 64:
-        return {'reproduced': False, 'detail': 'sizes too large'}
+        return {'reproduced': False, 'skip': True, 'detail': 'sizes too large'}
     rowscale = max(1, (4 * 1024 * 1024) // (4 * max(1, min(c1, c2))))     # every chunk spans several MB
     spec = dict(n=n, c1=c1, c2=c2, acts=acts, order=bool(fx['order']), rowscale=rowscale)
     with rp.scratch() as tmp:
